@@ -80,7 +80,7 @@ CLAIMS = {
         "Iabc has dimension -2, and every function returns a dimensionless number on ALL paths.  Hence each contribution is exactly homogeneous of degree 0 under a common rescaling of all "
         "dimensionful inputs, i.e. it falls like 1/k^2 through its explicit m_mu^2 prefactor when only the SUSY scale is raised; the 2L uncertainty is >= its floor.  The one-variable loop "
         "functions the contributions call (F1C..F4N, f_PS, f_S, f_sferm) are their published, at most logarithmically growing definitions on every path incl. expansion windows "
-        "(C01's definition contracts re-registered as callee contracts).",
+        "(C01's definition contracts re-registered as callee contracts).  Callee contracts: the spectrum entering a_mu is the spectrum of the mass matrices (the eigen-solver receives get_mass_matrix_X() itself on every path: smuon, stau, sbottom, stop, chargino, neutralino sectors); m_SUSY = log_scale(model) is the positive minimum of |M1|, |M2|, |mu|, sqrt(me2(1,1)), sqrt(ml2(1,1)) for parameters of either sign.",
    note=NOTE_COMMON + "NOT decided: the size of the O((MZ/M_SUSY)^2) corrections and the numerical ratios of the quantifier (asymptotic statements); the units interpretation shares the extractor/interpreter "
         "with the other back ends; field dimensions are assigned from the documentation of MSSMNoFV_onshell.",
    technique="abstract interpretation of the extracted code over mass dimensions (units contract), all paths", design='5 C07'),
@@ -122,7 +122,7 @@ CLAIMS = {
         "domain -- each shift guard removes the pole it is meant for and no unguarded pole remains (with and, per function, without the assumption that two removable singularities do not "
         "coincide); helpers are called inside their preconditions (modular); the guard in amu2L_B_EWadd only moves the argument (the unguarded temporary is dead downstream); the quark Barr-Zee functions FCWu, FCWd, f_CSu, f_CSd, phi_over_y "
         "under their documented/physical preconditions (xu yd == xd yu; down-type quark lighter than half the W and H+- masses) and their call sites fuHp/fdHp; dxlog's series "
-        "has the Taylor coefficients of its definition.  Counterexamples are replayed on the real code along the property's one-parameter path with the property's own 1%-band criterion.  MSSM: tan_alpha() returns the negative root of t x^2 + 2x - t = 0 (t = tan 2 alpha) on BOTH sides of M_A = M_Z for all tan(beta) != 1; at M_A bit-identical to M_Z exactly -1 for ALL tan(beta) in [1e-3,1e3] and M_Z in [1e-3,1e5] in IEEE round-to-nearest arithmetic (execution of the extracted function on sets of doubles, gm2v/fpset.py; no sampling).  The 20 one-argument loop/special functions return a finite number for EVERY double of their domain (same back end).  FLOATING-POINT side contract (standard model, u = 2^-53; not an A-REAL statement): the two guards with which phi_over_y recognises a zero of its denominator are above the rounding noise of the tested expression (guard constant >= 4 u mag(E)), so the exact coincidence m_H+ = m_t +- m_b takes the analytic limit.  BOUNDED stand-in for the 1% band itself: the property's own test through the public API on 4 THDM and 4 MSSM base points (601 + 3697 one-parameter paths through the degenerate configurations formed from their masses, 9 distances each): all values finite and inside the band, except one open finding (smooth curvature near the pole of the resummed bottom Yukawa coupling, KNOWN-FINDING).",
+        "has the Taylor coefficients of its definition.  Counterexamples are replayed on the real code along the property's one-parameter path with the property's own 1%-band criterion.  MSSM: tan_alpha() returns the negative root of t x^2 + 2x - t = 0 (t = tan 2 alpha) on BOTH sides of M_A = M_Z for all tan(beta) != 1; at M_A bit-identical to M_Z exactly -1 for ALL tan(beta) in [1e-3,1e3] and M_Z in [1e-3,1e5] in IEEE round-to-nearest arithmetic (execution of the extracted function on sets of doubles, gm2v/fpset.py; no sampling).  The 20 one-argument loop/special functions return a finite number for EVERY double of their domain (same back end).  FLOATING-POINT side contract (standard model, u = 2^-53; not an A-REAL statement): the two guards with which phi_over_y recognises a zero of its denominator are above the rounding noise of the tested expression (guard constant >= 4 u mag(E)), so the exact coincidence m_H+ = m_t +- m_b takes the analytic limit.  BOUNDED stand-in for the 1% band itself: the property's own test through the public API on 4 THDM and 4 MSSM base points (601 + 3697 one-parameter paths through the degenerate configurations formed from their masses, 9 distances each): all values finite and inside the band, except one open finding (smooth curvature near the pole of the resummed bottom Yukawa coupling, KNOWN-FINDING).  MSSM leading-log two-loop functions (amu2LFSfapprox, Delta_g1, Delta_g2, the three Delta_yuk, Delta_tan(beta)): for parameters of either sign every logarithm and square root is in its domain on every path (1270 side obligations), m_SUSY = log_scale by its contract (the positive minimum of the special masses).",
    note=NOTE_COMMON + "NOT decided: the 1% band itself (size of the cancellations between pole terms after a shift of 1e-8) and everything about rounding; the neutral fermionic two-loop, the one-loop THDM and "
         "the MSSM functions are covered for this property only through the loop-function contracts of C01/C02 (equal-argument branches).  T7/T8 (complex square roots) only through their call-site preconditions. "
         "Four fixed findings (Kaellen zeros, m_h = 2 m_W, guard onto the pole at m_h = m_Z, guard order in YF3).",
